@@ -838,13 +838,22 @@ func (l *Gsub8_1) encode() []byte {
 	total += l.Input.EncodeLen()
 	backtrackCoverageOffsets := make([]uint16, backtrackGlyphCount)
 	for i, cov := range l.Backtrack {
+		if total > 0xFFFF {
+			panic("coverage offset overflow")
+		}
 		backtrackCoverageOffsets[i] = uint16(total)
 		total += cov.EncodeLen()
 	}
 	lookaheadCoverageOffsets := make([]uint16, lookaheadGlyphCount)
 	for i, cov := range l.Lookahead {
+		if total > 0xFFFF {
+			panic("coverage offset overflow")
+		}
 		lookaheadCoverageOffsets[i] = uint16(total)
 		total += cov.EncodeLen()
+	}
+	if coverageOffset > 0xFFFF {
+		panic("coverage offset overflow")
 	}
 
 	buf := make([]byte, 0, total)
